@@ -317,9 +317,13 @@ def _stale_handler_revalidates(ctx, pm, cls_name, slot):
         if not restores:
             return False, "%s does not restore the default handler on entry" % h
         tested = set()          # names the handler compares the current node's name with (x in (..) or x == ..)
+        # a local that holds the current node (`currentNode = self.tree.openElements[-1]`) stands for it
+        cur_locals = {a.targets[0].id for a in ast.walk(hm.node) if isinstance(a, ast.Assign) and len(a.targets) == 1 and
+                      isinstance(a.targets[0], ast.Name) and norm(a.value).endswith("openElements[-1]")}
         for t in ast.walk(hm.node):
             if isinstance(t, ast.Compare) and len(t.ops) == 1 and isinstance(t.ops[0], (ast.In, ast.Eq)) and \
-                    norm(t.left).endswith("openElements[-1].name"):
+                    (norm(t.left).endswith("openElements[-1].name") or (isinstance(t.left, ast.Attribute) and t.left.attr == "name" and
+                                                                          isinstance(t.left.value, ast.Name) and t.left.value.id in cur_locals)):
                 v = ctx.ce.try_eval(t.comparators[0], hm.module)
                 if isinstance(v, (tuple, list, set, frozenset)):
                     tested |= {x for x in v if isinstance(x, str)}
